@@ -12,6 +12,9 @@ Action tuples (ids are ints):
     ('E', raised)            a task runs group.__aexit__ (body raised or not)
     ('K',)                   the joining task is cancelled
     ('N', k)                 a task calls group.next_done()  (consumer k)
+    ('R', c)                 another task (sweeper c) calls group.cancel_remaining()
+    ('A', i, other)          the task of member i (finished or not) is handed to the group AGAIN
+                             (other=True: to a second group) - the library must refuse it
 J, E and N may carry a trailing tuple of adds ((i, 'n'|'v'|'e'), ...): tasks that have ALREADY
 FINISHED (outside the group) are put into the group with `add_task` and the call follows in the
 same coroutine without yielding in between (serialised for the model as `S + F + ... + J`).
@@ -52,7 +55,10 @@ class Impl:
         class LoggingTask(asyncio.Task):
             def cancel(self, msg=None):
                 outer.cancel_log.append(self)
-                if not outer.by_harness:
+                # ... by the task that runs join()/__aexit__ (not by a member's own inner
+                # timeout, not by another task's cancel_remaining())
+                if not outer.by_harness and outer.joiner is not None \
+                        and asyncio.current_task(outer.loop) is outer.joiner:
                     outer.group_cancelled.add(self)
                 return super().cancel(msg)
 
@@ -69,6 +75,9 @@ class Impl:
         self.join_kind = None
         self.join_state = None    # None | active | cancelled | exited
         self.consumers = {}
+        self.sweepers = {}
+        self.g2 = None            # a second group (only for action A)
+        self.readds = 0
         self.log = []             # completion order of non-daemon members
         self.yielded = []         # (consumer k, member) in order
 
@@ -92,7 +101,7 @@ class Impl:
 
     async def member(self, i, children):
         CancelledError = self.curio.CancelledError
-        if i % 3 == 1:
+        if i % 3 == 1 and i < 100:
             # an inner timeout that expired and was handled before the member settles down
             async with self.curio.ignore_after(0):
                 await self.curio.sleep(5)
@@ -247,6 +256,17 @@ class Impl:
             self.by_harness = True
             self.joiner.cancel()
             self.by_harness = False
+        elif k == 'R':
+            self.sweepers[a[1]] = self.loop.create_task(self.g.cancel_remaining())
+        elif k == 'A':
+            self.readds += 1
+            if a[2] and self.g2 is None:
+                self.g2 = self.curio.TaskGroup(wait=WAIT[self.policy])
+            try:
+                (self.g2 if a[2] else self.g)._add_task(self.task[a[1]])
+                self.obs.append(f'ra{a[1]}')        # accepted a second time
+            except RuntimeError:
+                self.obs.append(f'rr{a[1]}')        # refused (the model answers `sr`: see rec_key use)
         elif k == 'N':
             made = [((i, oc), self.mk_done(i, oc)) for i, oc in adds_of(a)]
             self.consumers[a[1]] = self.loop.create_task(self._nextdone(a[1], made))
@@ -254,11 +274,16 @@ class Impl:
             if not self.consumers[a[1]].done():
                 self.obs.append(f'nb{a[1]}')
         self.idle()
+        # order of the cancellations; a member cancelled by several sweeps of the same reaction
+        # (another task's cancel_remaining(), then join's clean-up) counts where it was cancelled
+        # LAST: only a sweep that finishes members fixes a completion order, and a member it
+        # finishes is not touched by a later one
         perm = []
-        for t in self.cancel_log:
+        for t in reversed(self.cancel_log):
             i = self.ident(t)
             if i is not None and i not in perm:
                 perm.append(i)
+        perm.reverse()
         comp = self.g.completed
         rec = {
             'obs': tuple(sorted(self.obs)),
@@ -322,7 +347,8 @@ class Impl:
 
 
 # ---------------------------------------------------------------------- generation
-def valid_actions(im, r, nmax=6, allow_consumer_during_join=True, allow_consumer=True):
+def valid_actions(im, r, nmax=6, allow_consumer_during_join=True, allow_consumer=True,
+                  extra=False):
     acts = []
     running = [i for i, s in im.status.items() if s == 'run']
     canc = [i for i, s in im.status.items() if s == 'canc']
@@ -369,6 +395,24 @@ def valid_actions(im, r, nmax=6, allow_consumer_during_join=True, allow_consumer
             acts.append(('N', len(im.consumers)))
     elif js == 'exited' and len(im.consumers) < 4 and allow_consumer:
         acts.append(('N', len(im.consumers)))
+    if extra:
+        # another task sweeps the group with cancel_remaining() - before or while join() runs
+        # (not while a next_done caller is parked: a sweep can finish several members at once and
+        # the hand-over of the permits to parked callers is atomic in the model, see above)
+        if (running or canc) and len(im.sweepers) < 2 and js != 'exited' and not parked:
+            acts.append(('R', len(im.sweepers)))
+            if js is None:
+                acts.append(('R', len(im.sweepers)))
+        # a member's task is handed to the group (or to a second one) again
+        if js != 'exited':
+            fin = [i for i, s in im.status.items() if s == 'done' and i in im.task]
+            for i in fin[:2]:
+                acts.append(('A', i, r.random() < 0.3))
+            if running and r.random() < 0.3:
+                acts.append(('A', r.choice(running), r.random() < 0.3))
+            if im.readds and allow_consumer and len(im.consumers) < 6 and js != 'exited':
+                acts.append(('N', len(im.consumers)))
+                acts.append(('N', len(im.consumers)))
     return acts
 
 
@@ -401,6 +445,10 @@ def _ser_action(a, perm):
         return f'K {p}'
     if k == 'N':
         return f'N {a[1]} {p}'
+    if k == 'R':
+        return f'R {p}'
+    if k == 'A':
+        return f'A {a[1]} {int(bool(a[2]))}'
     raise ValueError(a)
 
 
@@ -450,7 +498,7 @@ def drain(im, r, actions, recs, budget=24):
 
 def run_trace(repo, policy, actions_or_rng, max_steps=14, nmax=6, retain=False,
               consumer_during_join=True, micro_rng=None, drain_rng=None, consumers=True,
-              min_spawns=0):
+              min_spawns=0, extra=False):
     """Either replay a fixed action list or generate one with `rng`.  Returns
     (actions, records, impl snapshot for the oracles).  `drain_rng`: after the random part, go
     on (with ordinary actions) until every member has finished; `consumers=False`: no task other
@@ -465,7 +513,7 @@ def run_trace(repo, policy, actions_or_rng, max_steps=14, nmax=6, retain=False,
         else:
             r = actions_or_rng
             for _ in range(r.randint(3, max_steps)):
-                acts = valid_actions(im, r, nmax, consumer_during_join, consumers)
+                acts = valid_actions(im, r, nmax, consumer_during_join, consumers, extra)
                 if len(actions) < min_spawns:
                     acts = [a for a in acts if a[0] == 'S'] or acts
                 if not acts:
@@ -483,6 +531,7 @@ def run_trace(repo, policy, actions_or_rng, max_steps=14, nmax=6, retain=False,
             'waits_in': im.joiner_waits_in(),
             'pending': sorted(i for i in (im.ident(t) for t in im.g._pending) if i is not None),
             'drained': drain_rng is not None and not isinstance(actions_or_rng, list),
+            'sweepers_done': {c: t.done() for c, t in im.sweepers.items()},
         }
         # micro-step probe (oracle only, not part of the model trace): let every unfinished member
         # finish, then advance the loop ONE iteration at a time and try to add a task from outside
